@@ -100,6 +100,13 @@ def signature(tr, prog):
     return ["normalize", "paths", "single-hypothesis", "done"][stage]
 
 
+def signature_later(tr, prog):
+    step, stage = prog // 10, prog % 10
+    if step < len(tr["hyps"]):
+        return "add:%s" % tr["outcome"][step] if tr["outcome"][step] != "ok" else "add:step-rejected"
+    return ["normalize", "paths", "single-hypothesis", "done"][stage]
+
+
 def describe(tr, prog):
     step, stage = prog // 10, prog % 10
     n = len(tr["hyps"])
@@ -123,8 +130,21 @@ DRIFT = 1000     # progress value of a history that satisfies the property but l
 
 
 def judge(ctx, consts, traces, label):
+    consts = dict(consts, KnownEmptyFirst=False)
     acc, rej = ctx.validate("ConfusionNet_Trace", traces, constants=consts, label="ConfusionNet_Trace " + label,
                             shards=max(1, min(4, len(traces) // 1500)))
+    # histories rejected at the open known finding are validated again with the deviation modelled as an action, so that the
+    # rest of the history (later additions, normalisation, path enumeration) is still judged; what is rejected there is a
+    # different violation and gets its own signature
+    kf = [(i, p) for i, p in rej if p != DRIFT and signature(traces[i], p) == "add:first-hypothesis-empty"]
+    later = {}
+    if kf:
+        sub = [traces[i] for i, _ in kf]
+        before = ctx.traces_validated
+        _, rej2 = ctx.validate("ConfusionNet_Trace", sub, constants=dict(consts, KnownEmptyFirst=True),
+                               label="ConfusionNet_Trace %s (known deviation modelled)" % label, shards=max(1, min(4, len(sub) // 1500)))
+        ctx.traces_validated = before
+        later = {kf[k][0]: p for k, p in rej2 if p != DRIFT}
     drifted = {i for i, p in rej if p == DRIFT}
     rejected = {i for i, p in rej if p != DRIFT}
     ctx.traces_validated += len(drifted)        # property-level acceptance is what counts
@@ -135,6 +155,7 @@ def judge(ctx, consts, traces, label):
         ctx.model_drift("network differs from the modelled pointer machine (property holds)", 1, {"hyps": traces[i]["hyps"]})
     # one representative of every signature first (only the first violations are printed / stored)
     viol = [(idx, prog, signature(traces[idx], prog)) for idx, prog in rej if prog != DRIFT]
+    viol += [(idx, prog, "after-empty-first:" + signature_later(traces[idx], prog)) for idx, prog in sorted(later.items())]
     seen, first, rest = set(), [], []
     for v in viol:
         (first if v[2] not in seen else rest).append(v)
@@ -180,7 +201,7 @@ def run(ctx):
                     col = tr["nets"][-1][0]
                     col[0][1] += 1000          # one arc of the first position gains one unit too much
                     return tr
-                ctx.selftest_corrupt("ConfusionNet_Trace", pick[len(pick) // 2], corrupt, constants=consts)
+                ctx.selftest_corrupt("ConfusionNet_Trace", pick[len(pick) // 2], corrupt, constants=dict(consts, KnownEmptyFirst=False))
                 ctx.sample({"config": b["name"], "trace": pick[len(pick) // 2]}, limit=3)
                 selftest_done = True
     # self-tests of the model: the two defects of the current tree must be visible to TLC
